@@ -216,6 +216,9 @@ def apply_op(state, sx):
         return put(args[0], t[slice(_slice_arg(args[2]), _slice_arg(args[3]), _slice_arg(args[4]))])
     if op in ('mask', 'take', 'proj'):
         return put(args[0], state[_h(args[1])][proto.dec(args[2])])
+    if op == 'sub':
+        ks = proto.dec(args[2])
+        return put(args[0], state[_h(args[1])] - (ks[0] if len(ks) == 1 else ks))       # one key is passed as a scalar
     if op == 'call':
         return put(args[0], state[_h(args[1])](**_dict(args[2], _callarg)))
     if op == 'relabel':
@@ -261,7 +264,7 @@ def dump(state):
     return '(L' + ''.join(' ' + enc(dict(t)) for t in state) + ')'
 
 
-DST_OPS = ('new', 'slice', 'mask', 'take', 'proj', 'call', 'relabel', 'do', 'concat', 'add', 'addrec', 'copy', 'inc0', 'alias')
+DST_OPS = ('new', 'slice', 'mask', 'take', 'proj', 'sub', 'call', 'relabel', 'do', 'concat', 'add', 'addrec', 'copy', 'inc0', 'alias')
 
 
 def handles_ok(state, sx):
@@ -672,6 +675,21 @@ def g_op(S):
             S.bind(dst, cols, len(idx))
         return
     if r < 0.73:        # projection
+        if rng.random() < 0.25:
+            # d - key / d - [keys]: a NEW table without these columns (absent keys ignored); a single key goes in as a scalar
+            q = rng.random()
+            if q < 0.35 or not cols:
+                ks = [absent(cols)]                       # nothing to delete: still a new object, never the operand itself
+                S.tags.add('sub-absent')
+            elif q < 0.7:
+                ks = [rng.choice(cols)]
+            else:
+                ks = list(dict.fromkeys([rng.choice(cols + [absent(cols)]) for _ in range(rng.choice([2, 3]))]))
+            S.emit('(tbl sub h%d h%d %s)', dst, h, enc(ks))
+            rest = [c for c in cols if c not in ks]
+            S.bind(dst, rest, n if rest else 0)
+            S.tags.add('sub')
+            return
         if cols and rng.random() < 0.85:
             ks = [rng.choice(cols) for _ in range(rng.choice([1, 2, 2, 3]))]
             S.emit('(tbl proj h%d h%d %s)', dst, h, enc(ks))
